@@ -132,8 +132,12 @@ def body_retarr(pattern):
         site = {"msg": "ReturnArrayMessage"}
         if len(pattern) > 8:
             site["long"] = True
-        back, err = _guard(lambda: M.deserialize_return_msg(bytes(M.ReturnArrayMessage(address=addr, values=list(vals)))),
-                           "roundtrip_raises", site)
+        def roundtrip():
+            # another array message of the same length was serialised just before (state kept between two messages must not leak)
+            if 0 < len(vals) <= 8:
+                bytes(M.ReturnArrayMessage(address=1, values=[9] * len(vals)))
+            return M.deserialize_return_msg(bytes(M.ReturnArrayMessage(address=addr, values=list(vals))))
+        back, err = _guard(roundtrip, "roundtrip_raises", site)
         if err:
             return err
         obs = [Ob("class", type(back) is M.ReturnArrayMessage, site)]
